@@ -12,12 +12,13 @@ pub enum Kind {
     Rec,    // #[compound] struct Rec { a: LTerm, b: LTerm }
     Node,   // #[compound] struct Node(LTerm, Node, Node)  -- recursive, typed fields
     Tuple,  // Rust 2-tuple (LTerm, LTerm)
+    Wrap,   // #[compound] struct Wrap(LTerm, Option<Pair>): second argument is [] (None) or a Pair (Some)
 }
 
 impl Kind {
     pub fn arity(self) -> usize {
         match self {
-            Kind::Pair | Kind::Duo | Kind::Rec | Kind::Tuple => 2,
+            Kind::Pair | Kind::Duo | Kind::Rec | Kind::Tuple | Kind::Wrap => 2,
             Kind::Triple | Kind::Node => 3,
         }
     }
@@ -29,6 +30,7 @@ impl Kind {
             Kind::Rec => "Rec",
             Kind::Node => "Node",
             Kind::Tuple => "",
+            Kind::Wrap => "Wrap",
         }
     }
     pub fn from_type_name(n: &str) -> Option<Kind> {
@@ -39,6 +41,7 @@ impl Kind {
             "Rec" => Kind::Rec,
             "Node" => Kind::Node,
             "" => Kind::Tuple,
+            "Wrap" => Kind::Wrap,
             _ => return None,
         })
     }
@@ -58,6 +61,23 @@ pub enum Term {
 }
 
 impl Term {
+    /// `Wrap`'s second field is a Rust `Option<Pair>`, not a logic term: it can only be `[]`
+    /// (None) or a `Pair` (Some). Replace anything else by `[]`.
+    pub fn sanitize_wrap(&self) -> Term {
+        match self {
+            Term::Cons(h, t) => Term::cons(h.sanitize_wrap(), t.sanitize_wrap()),
+            Term::Cmp(Kind::Wrap, a) => {
+                let second = match &a[1] {
+                    Term::Cmp(Kind::Pair, p) => Term::Cmp(Kind::Pair, p.iter().map(|x| x.sanitize_wrap()).collect()),
+                    _ => Term::Nil,
+                };
+                Term::Cmp(Kind::Wrap, vec![a[0].sanitize_wrap(), second])
+            }
+            Term::Cmp(k, a) => Term::Cmp(*k, a.iter().map(|x| x.sanitize_wrap()).collect()),
+            t => t.clone(),
+        }
+    }
+
     pub fn cons(h: Term, t: Term) -> Term {
         Term::Cons(Box::new(h), Box::new(t))
     }
